@@ -78,13 +78,23 @@ class Run:
         self.quick = tier == "quick"
 
     # ---------------------------------------------------------------- build
-    def vdrv(self, tags="verif"):
+    def vdrv(self, tags="verif", sched=False):
         """Builds the harness binary against /repo's current working tree (go's content-addressed cache keeps this cheap)."""
         if self._vdrv:
             return self._vdrv
         out = os.path.join(self.work, "vdrv")
-        cmd = ["go", "build", "-tags", tags, "-o", out, "./cmd/vdrv"]
         t = time.time()
+        # 1. overlay generator (instruments copies of /repo's current files; /repo itself is never touched)
+        vin = os.path.join(self.work, "vinstr")
+        p = subprocess.run(["go", "build", "-o", vin, "./cmd/vinstr"], cwd=HARNESS, env=GOENV, capture_output=True, text=True)
+        if p.returncode != 0:
+            raise Infra("vinstr build failed:\n" + p.stdout + p.stderr)
+        ovd = os.path.join(self.work, "overlay")
+        p = subprocess.run([vin, "-repo", REPO, "-out", ovd] + (["-sched"] if sched else []), capture_output=True, text=True)
+        if p.returncode != 0:
+            raise Infra("vinstr failed on current /repo tree:\n" + p.stdout + p.stderr)
+        self.overlay = p.stdout.strip()
+        cmd = ["go", "build", "-overlay", self.overlay, "-tags", tags, "-o", out, "./cmd/vdrv"]
         p = subprocess.run(cmd, cwd=HARNESS, env=GOENV, capture_output=True, text=True)
         if p.returncode != 0:
             raise Infra("harness build failed against current /repo tree:\n" + p.stdout + p.stderr)
